@@ -69,6 +69,8 @@ type world struct {
 	faultsP map[string]int
 
 	or *oracle
+
+	capAsserted bool // the per-host block cap is asserted in this run
 }
 
 const forever = int(^uint(0) >> 1)
